@@ -1514,6 +1514,10 @@ int XMLDateTime::findUTCSign (const XMLSize_t start)
 //
 int XMLDateTime::parseInt(const XMLSize_t start, const XMLSize_t end) const
 {
+    // a number has at least one digit ("PY", "PT.5S" are not durations)
+    if (start >= end)
+        ThrowXMLwithMemMgr(NumberFormatException, XMLExcepts::XMLNUM_emptyString, fMemoryManager);
+
     unsigned int retVal = 0;
     for (XMLSize_t i=start; i < end; i++) {
 
